@@ -245,9 +245,13 @@ def r5_precision_plumbing(ctx: Context) -> None:
     prog = ctx.prog
     init = ctx.func("black_it.calibrator:Calibrator.__init__")
     stores = [(s, val) for f, s, val in prog.attr_stores(prog.find_class("Calibrator"), inherited=False).get("convergence_precision", []) if f is init]
-    ctx.check(len(stores) == 1, "R5.precision-kept", "Calibrator.__init__:convergence_precision-store", "the precision is stored once by the constructor", f"{len(stores)} stores", init, init.node)
-    if len(stores) != 1:
+    ctx.check(len(stores) >= 1, "R5.precision-kept", "Calibrator.__init__:convergence_precision-store", "the precision is stored by the constructor", f"{len(stores)} stores", init, init.node)
+    if len(stores) < 1:
         return
+    from ..util import assigned_value, is_self_attr
+    stored_expr = assigned_value(init.node.body, lambda t: is_self_attr(t, init.self_name, "convergence_precision"))
+    if stored_expr is None:
+        raise AnalysisError(f"{init.loc(init.node)}: cannot read the value stored in convergence_precision as one conditional expression; cannot decide R5")
     rows = []
     for p in (None, 0, 1, 12, -1):
         obj = Obj("Calibrator", {})
@@ -255,7 +259,7 @@ def r5_precision_plumbing(ctx: Context) -> None:
         try:
             env = {init.self_name: obj, "convergence_precision": p}
             try:
-                got = ("value", ev._eval(stores[0][1], env))
+                got = ("value", ev._eval(stored_expr, env))
             except Exception as exc:  # a raise inside the abstract evaluation
                 if exc.__class__.__name__ == "_Raise":
                     got = ("raise", exc.name)
